@@ -26,6 +26,13 @@ impl Nondet {
     }
     /// a byte vector of the given length whose contents do not matter
     #[inline(never)] pub fn blob(&mut self, len: usize) -> Vec<u8> { vec![0u8; len] }
+    /// a fixed, valid peer id identified by `v` (no solver variable)
+    #[inline(never)] pub fn peer_id_fixed(&mut self, v: u8) -> PeerId {
+        let mut b = [0u8; 34];
+        b[1] = 32;
+        b[2] = v;
+        PeerId::from_bytes(&b).expect("valid identity multihash")
+    }
     #[inline(never)] pub fn peer_id(&mut self, _name: &'static str) -> PeerId {
         let v = self.next() as u8;
         let mut b = [0u8; 34];
